@@ -28,6 +28,8 @@ RESULT_TYPE = {
     "permute": GRAPH,
     "serialize": STRING,
     "write": MOLTEXT,
+    "edit": GRAPH,
+    "fs_write": NONE,
     "mutate": NONE,
     "drop": NONE,
     "gc": NONE,
@@ -44,11 +46,19 @@ def fmt_seed(x):
     return repr(float(x))
 
 
-def op_key(op, keys, spec):
+def op_key(op, keys, spec, overlay=None, ops=None):
     """Key (derivation expression) of the result of `op`; `keys` are the keys
-    of the earlier ops of the same client (None where there is none)."""
+    of the earlier ops of the same client (None where there is none); `overlay`
+    maps paths this client has (re)written to the text id they now hold."""
     k = op["op"]
     if k == "again":
+        if ops is not None:
+            b = op
+            while b["op"] == "again":
+                b = ops[b["of"]]
+            if b["op"] == "read_file":
+                # the file may have been rewritten since: the key follows its content
+                return op_key(b, keys, spec, overlay)
         return keys[op["of"]]
     if k == "read":
         src = op["text"] if "text" in op else keys[op["arg"]]
@@ -57,7 +67,7 @@ def op_key(op, keys, spec):
         path = op["path"]
         if not path.endswith(".mol"):
             return f"readf_badsuffix({path})"
-        tid = spec["files"].get(path)
+        tid = overlay.get(path) if overlay and path in overlay else spec["files"].get(path)
         if tid is None:
             return f"readf_missing({path})"
         return f"read({tid})"
@@ -70,6 +80,9 @@ def op_key(op, keys, spec):
     if k == "write":
         a = keys[op["arg"]]
         return None if a is None else f"write({a},{int(bool(op.get('calc')))})"
+    if k == "edit":
+        a = keys[op["arg"]]
+        return None if a is None else f"edit({a},{op['how']},{op['x']},{int(bool(op.get('inplace')))})"
     if k == "permute":
         a = keys[op["arg"]]
         return None if a is None else f"permute({a},{fmt_seed(op['seed'])})"
@@ -90,18 +103,27 @@ def client_keys(ops, spec, keydefs=None):
     reference job can recompute the key in isolation."""
     keys = []
     chains = []  # per op: list of original indices forming its chain (in order)
+    overlay = {}
+    last_write = {}  # path -> index of the fs_write op that last wrote it
     for i, op in enumerate(ops):
-        key = op_key(op, keys, spec)
+        key = op_key(op, keys, spec, overlay, ops)
         keys.append(key)
+        if op["op"] == "fs_write":
+            overlay[op["path"]] = op["text"]
+            last_write[op["path"]] = i
         b = op
         j = i
         while b["op"] == "again":
             j = b["of"]
             b = ops[j]
-        if b is not op:
+        if b is not op and b["op"] != "read_file":
             chains.append(chains[j])
             continue
-        if "arg" in b and RESULT_TYPE.get(b["op"]) != NONE:
+        if b["op"] == "read_file":
+            # isolated meaning: the file as last written by this client, read once
+            lw = last_write.get(b["path"])
+            chains.append(([lw] if lw is not None else []) + [i])
+        elif "arg" in b and RESULT_TYPE.get(b["op"]) != NONE:
             chains.append(chains[b["arg"]] + [i])
         else:
             chains.append([i])
@@ -114,7 +136,7 @@ def client_keys(ops, spec, keydefs=None):
                 o.pop("abort", None)
                 o.pop("io_fault", None)
                 if "arg" in o:
-                    o["arg"] = remap[base_index(ops, o["arg"])]
+                    o["arg"] = remap[o["arg"]] if o["arg"] in remap else remap[base_index(ops, o["arg"])]
                 chain_ops.append(o)
             keydefs[key] = chain_ops
     return keys
